@@ -162,13 +162,13 @@ impl<T, E> Write<Result<T, E>> {
 /// - must not adopt new [`Gc`] pointers.
 pub unsafe trait DerefWrite: Deref {}
 
-// SAFETY: All these types have pure & non-GC-traversing Deref impls
-unsafe impl<T: ?Sized> DerefWrite for &T {}
+// SAFETY: All these types have pure & non-GC-traversing Deref impls, and uniquely own their target.
+//
+// Shared-ownership pointers (`&T`, `Rc<T>`, `Arc<T>`) must NOT implement this trait: their target
+// may also be reachable from some other `Gc` object which has not had a write barrier applied, so
+// `Write::from_mut(&mut shared).as_deref()` would forge an un-barriered `&Write<T>` in safe code.
 unsafe impl<T: ?Sized> DerefWrite for alloc::boxed::Box<T> {}
 unsafe impl<T> DerefWrite for Vec<T> {}
-unsafe impl<T: ?Sized> DerefWrite for alloc::rc::Rc<T> {}
-#[cfg(target_has_atomic = "ptr")]
-unsafe impl<T: ?Sized> DerefWrite for alloc::sync::Arc<T> {}
 
 /// Types which preserve write barriers when indexed.
 ///
